@@ -41,3 +41,25 @@ Example c01_moving_nonvacuous :
   map (fun x => (map (fun e => (estep e, bid (eblk e))) (fst x), snd x)) (skipn 8 (fk_run mv_cfg_fail (fs_init (LExcl mv_r0)) mv_hist)) =
     [ ([(SUndo, 5); (SUndo, 4); (SNew, 3); (SNew, 6); (SNew, 11); (SIrr, 3)], RHandlerErr) ].
 Proof. vm_compute. repeat split; auto. Qed.
+
+(* discovery mode (no configured LIB, hold-until-LIB), any handler oracle *)
+Theorem c01_discovery_partial : c01_discovery_statement.
+Proof. exact c01_discovery_proved. Qed.
+Print Assumptions c01_discovery_partial.
+
+(* non-vacuity: four blocks are held (a child before its parents, a duplicate), the fifth block declares the
+   height of its stored grand-parent: the LIB is discovered, the chain above it is delivered and the LIB is
+   announced; later a multi-block LIB jump with a stalled fork, re-fed blocks, a block that is its own LIB *)
+Definition dv_hist : list block :=
+  [ mkBlock 3 12 2 10; mkBlock 1 10 100 8; mkBlock 2 11 1 8; mkBlock 2 11 1 8; mkBlock 4 12 2 10; mkBlock 5 13 4 11; mkBlock 9 20 77 15;
+    mkBlock 6 14 5 13; mkBlock 3 12 2 10; mkBlock 1 10 100 8; mkBlock 7 15 6 15 ].
+Definition dv_cfg (kept : N) (fail : option N) : config := mkCfg 0 false true kept false (mkFilter true true true true) fail.
+
+Example c01_discovery_nonvacuous :
+  disc_scope_b dv_hist = true /\ c_hold (dv_cfg 1 None) = true /\
+  map (fun x => (map (fun e => (estep e, bid (eblk e))) (fst x), snd x)) (fk_run (dv_cfg 1 None) (fs_init LNone) dv_hist) =
+    [ ([], ROk); ([], ROk); ([], ROk); ([], ROk); ([(SNew, 2); (SNew, 4); (SIrr, 1)], ROk); ([(SNew, 5); (SIrr, 2)], ROk); ([], ROk);
+      ([(SNew, 6); (SIrr, 4); (SIrr, 5); (SStalled, 3)], ROk); ([], ROk); ([], ROk); ([(SNew, 7); (SIrr, 6); (SIrr, 7)], ROk) ] /\
+  map (fun x => (map (fun e => (estep e, bid (eblk e))) (fst x), snd x)) (skipn 4 (fk_run (dv_cfg 0 (Some 4)) (fs_init LNone) dv_hist)) =
+    [ ([(SNew, 2); (SNew, 4); (SIrr, 1)], ROk); ([(SNew, 5); (SIrr, 2)], RHandlerErr) ].
+Proof. vm_compute. repeat split; reflexivity. Qed.
